@@ -253,6 +253,7 @@ pub fn run_c19(cx: &Ctx) -> i32 {
     let k = if cx.quick() { 3 } else { 4 };
     let mut atoms = space::core_atoms();
     atoms.push(Node::CondExists(1));
+    atoms.push(Node::Assert(A::BigZ));
     let mut g = space::fancy_grammar(atoms);
     g.cond_group = true;
     g.cond_expr = true;
@@ -316,6 +317,14 @@ pub fn run_c19(cx: &Ctx) -> i32 {
                 let a = format!("(?{}){}", f, pattern);
                 let b = format!("(?{}:{})", f, pattern);
                 variants.push((format!("T4 leading (?{}) vs (?{}:..) [pair]", f, f), format!("{}\u{0}{}", a, b), true));
+            }
+            // T7 quantifier spellings: ? * + {n} <-> {0,1} {0,} {1,} {n,n}
+            if node.any(&|n| matches!(n, Node::Repeat(..))) {
+                variants.push(("T7 ? * + {n} -> {0,1} {0,} {1,} {n,n}".into(), ast::to_pattern_verbose_quantifiers(node), true));
+            }
+            // T5 \Z <-> (?=\n*\z): same results (the trees differ by construction)
+            if pattern.contains("\\Z") {
+                variants.push(("T5 \\Z -> (?=\\n*\\z)".into(), pattern.replace("\\Z", "(?=\\n*\\z)"), false));
             }
             // T4/T5/T6 AST-level
             for (nm, r) in ast_respellings(node) {
@@ -419,7 +428,7 @@ pub fn run_c19(cx: &Ctx) -> i32 {
         t,
         Finish {
             rule: format!(
-                "every pattern of {} x respelling transformers, each at every applicable site and at all sites at once: T1 free spacing under (?x) (blank, newline, '# c\\n' at every token boundary), T2 (?#c) comments at every token boundary, T3 numbered <-> named groups with \\k<n>, (?P=n), \\k'n', relative \\k<-n>, numeric names \\k<N> and named conditions, T4 scoped flag groups <-> inline flags ((?f:X) <-> (?:(?f)X), leading (?f) <-> enclosing (?f:..), ((?f)X) <-> ((?f:X))), T5 \\h, \\e, \\A, \\z, \\xHH, \\x{{H}}, \\uHHHH, \\UHHHHHHHH versus their expansions, T6 possessive quantifier <-> atomic group; oracle: (i) Expr::parse_tree results equal (derived PartialEq on the tree and the backreference set), (ii) identical captures_from_pos on every text over {:?} up to length {} and every offset; non-trivial = compared cases with a match",
+                "every pattern of {} x respelling transformers, each at every applicable site and at all sites at once: T1 free spacing under (?x) (blank, newline, '# c\\n' at every token boundary), T2 (?#c) comments at every token boundary, T3 numbered <-> named groups with \\k<n>, (?P=n), \\k'n', relative \\k<-n>, numeric names \\k<N> and named conditions, T4 scoped flag groups <-> inline flags ((?f:X) <-> (?:(?f)X), leading (?f) <-> enclosing (?f:..), ((?f)X) <-> ((?f:X))), T5 \\h, \\e, \\A, \\z, \\xHH, \\x{{H}}, \\uHHHH, \\UHHHHHHHH versus their expansions, T6 possessive quantifier <-> atomic group, T7 quantifier spellings (? * + and exact counts written as explicit lo,hi ranges), \\Z <-> (?=\\n*\\z) (results only); oracle: (i) Expr::parse_tree results equal (derived PartialEq on the tree and the backreference set), (ii) identical captures_from_pos on every text over {:?} up to length {} and every offset; non-trivial = compared cases with a match",
                 space.describe(), alphabet, max_len
             ),
             exhaustive: true,
